@@ -14,11 +14,25 @@ from pathlib import Path
 
 import numpy as np
 
+def preload():
+    """import gemseo in the parent so that the forked workers inherit the modules"""
+    import h5py  # noqa: F401
+    import scipy.sparse  # noqa: F401
+    import gemseo.algos.database  # noqa: F401
+    import gemseo.algos.design_space  # noqa: F401
+    import gemseo.algos.optimization_problem  # noqa: F401
+    import gemseo.algos.optimization_result  # noqa: F401
+    import gemseo.caches.hdf5_cache  # noqa: F401
+    import gemseo.core.mdo_functions.mdo_function  # noqa: F401
+
+
 # ----------------------------------------------------------------------------- values <-> [kind, val]
 
 # the points: key i of the specification -> a real input vector (float and integer points)
-POINTS = {1: np.array([1.0, 0.5]), 2: np.array([2, 7]), 3: np.array([-3.0, 0.25])}
+POINTS = {1: np.array([1.0, 0.5]), 2: np.array([2, 7]), 3: np.array([-3.0, 0.25]), 4: np.array([4.0, 4.5]),
+          5: np.array([5, -5])}
 INT_SCALARS = {"c"}  # names whose scalar value is a Python int (the others are floats)
+LIST_VECTORS = {"g"}  # names whose vector value is given as a Python list (the others are ndarrays)
 
 
 def build(name, kind, val):
@@ -30,7 +44,7 @@ def build(name, kind, val):
     if kind == "size1":
         return np.array([v + 0.25])
     if kind == "vector":
-        return np.array([v, -v, v + 0.125])
+        return [v, -v, v + 0.125] if name in LIST_VECTORS else np.array([v, -v, v + 0.125])
     if kind == "matrix":
         return np.array([[v, 1.0, 2.0], [-v, 0.5, v + 0.75]])
     raise ValueError(kind)
@@ -151,9 +165,7 @@ def project_ds(space):
     """DesignSpace -> [(name, size, type, lower bounds, upper bounds, current value | None)]."""
     out = []
     for name in space.variable_names:
-        cur = space._current_value.get(name) if hasattr(space, "_current_value") else None
-        if cur is None and space.has_current_value:
-            cur = space.get_current_value(as_dict=True).get(name)
+        cur = space._current_value.get(name)  # the variables that have a current value
         out.append((name, int(space.get_size(name)), str(space.get_type(name)),
                     [float(v) for v in space.get_lower_bound(name)],
                     [float(v) for v in space.get_upper_bound(name)],
@@ -233,6 +245,31 @@ def make_problem(database=None, variant=0):
 IO_ACTIONS = ("Export", "Reload", "Update", "ExportProblem", "ReloadProblem")
 
 
+def canon(x):
+    """a text that identifies a parsed TLA+ value independently of set / dict iteration order"""
+    if isinstance(x, dict):
+        return "[" + ",".join(sorted(f"{canon(k)}:{canon(v)}" for k, v in x.items())) + "]"
+    if isinstance(x, (set, frozenset)):
+        return "{" + ",".join(sorted(canon(v) for v in x)) + "}"
+    if isinstance(x, (tuple, list)):
+        return "<" + ",".join(canon(v) for v in x) + ">"
+    return repr(x)
+
+
+def canonicalise(g):
+    """TLC numbers the states by fingerprints drawn from a random polynomial and writes the edges in the
+    order its workers found them: re-order the graph by the content of states and labels, so that the walks
+    (and the sampled ones) are the same for a given VERIF_SEED."""
+    key = {sid: canon(st) for sid, st in g.states.items()}
+    g.edges.sort(key=lambda e: (key[e[0]], e[2], canon(e[3]), key[e[1]]))
+    g.out = {}
+    for k, e in enumerate(g.edges):
+        g.out.setdefault(e[0], []).append(k)
+    g.init.sort(key=key.get)
+    g.canon = key
+    return g
+
+
 class Tour:
     """Transition tour of a state graph (harness.core.Graph): long walks that together cover every edge.
     When the walk has no uncovered edge to take it moves (along covered edges) to the nearest state that
@@ -279,7 +316,7 @@ class Tour:
                 uncovered_at.setdefault(e[0], []).append(k)
                 n_want += 1
         if rng is not None:
-            for s in sorted(uncovered_at):
+            for s in sorted(uncovered_at, key=lambda sid: getattr(g, "canon", {}).get(sid, sid)):
                 rng.shuffle(uncovered_at[s])
         else:
             for lst in uncovered_at.values():
@@ -312,6 +349,29 @@ class Tour:
 
 
 # ----------------------------------------------------------------------------- replay of one walk
+
+def edge_label(act, args):
+    """the TLA+ text of a transition, e.g. Store(1,{"@f", "f"}) (parsed back by core.parse_action_label)"""
+    from ..tlaval import to_tla
+
+    return act + ("(" + ",".join(to_tla(a) for a in args) + ")" if args else "")
+
+
+def find_walk(graph, labels):
+    """edge ids of the walk from the initial state whose transitions have these labels"""
+    from ..core import parse_action_label
+
+    cur = graph.init[0]
+    walk = []
+    for lab in labels:
+        act, args = parse_action_label(lab)
+        k = next((k for k in graph.out.get(cur, ()) if graph.edges[k][2] == act and graph.edges[k][3] == args), None)
+        if k is None:
+            raise ValueError(f"no transition {lab} from the state reached after {len(walk)} steps")
+        walk.append(k)
+        cur = graph.edges[k][1]
+    return walk
+
 
 def op_name(act, args):
     if act in ("Export", "ExportProblem"):
@@ -559,6 +619,7 @@ def run_walk(job):
     finally:
         r.cleanup()
     viol = r.viol
+    failing = list(edge_ids[:steps + 1])
     if viol and steps < len(edge_ids):
         k = edge_ids[steps]
         short = _TOUR.shortest(_G.edges[k][0]) + [k]
@@ -570,11 +631,18 @@ def run_walk(job):
                 r2.cleanup()
             if r2.viol:
                 viol = r2.viol
+                failing = short
                 for v in viol:
                     v["detail"]["minimised_from_walk_of"] = len(edge_ids)
+    for v in viol:
+        v["detail"]["steps"] = [edge_label(_G.edges[k][2], _G.edges[k][3]) for k in failing]
+    for v in r.soft:
+        n = len(v["ops"])
+        v["detail"]["steps"] = [edge_label(_G.edges[k][2], _G.edges[k][3]) for k in edge_ids[:n]]
     viol = viol + r.soft
     for v in viol:
         v["node"] = "nested" if node else "root"
+        v["detail"]["variant"] = idx // 2
         v["detail"]["node"] = node or "(root)"
     return {"idx": idx, "steps": steps, "len": len(edge_ids), "exports": r.n_exports, "reloads": r.n_reloads,
             "viol": viol}
